@@ -255,9 +255,20 @@ class InternalRunAdapter(ABC):
         tasks = all_tasks(all_named)
         if not tasks:
             return WaitForNextTaskResult(None, started)
-        done, _ = await asyncio.wait(
-            tasks, timeout=timeout, return_when=asyncio.FIRST_COMPLETED
-        )
+        try:
+            done, _ = await asyncio.wait(
+                tasks, timeout=timeout, return_when=asyncio.FIRST_COMPLETED
+            )
+        except asyncio.CancelledError:
+            # The caller learns about `started` only from the return value. When the
+            # run is aborted during this wait, stop those tasks here, so that no step
+            # keeps executing untracked after the run has ended.
+            for named in started:
+                named.task.cancel()
+            await asyncio.gather(
+                *(named.task for named in started), return_exceptions=True
+            )
+            raise
         completed = pick_highest_priority(all_named, done) if done else None
         return WaitForNextTaskResult(completed, started)
 
